@@ -8,6 +8,7 @@ import (
 	"sort"
 	"strconv"
 	"strings"
+	"time"
 
 	"github.com/orda-io/orda/client/pkg/iface"
 	"github.com/orda-io/orda/client/pkg/model"
@@ -722,7 +723,7 @@ func (w *World) Local(a pt.Action) StepOut {
 		}
 		return nil
 	}
-	func() {
+	run := func() {
 		defer func() {
 			if p := recover(); p != nil {
 				out.Panic = fmt.Sprint(p)
@@ -745,7 +746,27 @@ func (w *World) Local(a pt.Action) StepOut {
 				out.Err = "txfail"
 			}
 		}
-	}()
+	}
+	nested := false
+	for _, s := range a.Sub {
+		if s.Op == "patch" {
+			nested = true
+		}
+	}
+	if !nested {
+		run()
+	} else {
+		// a call that opens a transaction inside the running one: if it waits for the mutex its own caller holds it never
+		// returns. Nothing else runs in this process, so a call of a few microseconds that has not returned after 30 s
+		// is waiting for ever; the goroutine cannot be recovered and the worker ends with the report.
+		done := make(chan struct{})
+		go func() { defer close(done); run() }()
+		select {
+		case <-done:
+		case <-time.After(30 * time.Second):
+			exitWith(viol("C09:transaction-body-never-returns:Document.PatchByJSON", "%s: the transaction has not returned after 30 s: PatchByJSON inside a transaction body waits for the mutex its own transaction holds", a))
+		}
+	}
 	out.Ret = jsonStr(subs)
 	return out
 }
